@@ -1,9 +1,69 @@
--- line-protocol handler of property C05 (stub: nothing modelled yet)
-import Winter.Drv.Util
+-- line-protocol handler of property C05 (FRI soundness: the verifier's decision)
+--   vfy <tag> <fld> <hasher> <N> <remdeg> <logb> <maxdeg> <parts> <ncommit> <alphas> <positions> <evals> <rem> <crem> <layers>
+--       FriVerifier::new + verify on abstract channel data: `ncommit` commitments of which the last one commits to
+--       the remainder `crem`, the α's drawn for them, the query positions and claimed evaluations, the remainder
+--       `rem` the channel presents, and per layer `<merkle flag>/<rows>` (layers separated by '|', rows by ';').
+--   adv …   adversarial end-to-end runs with the default channels (not modelled: α's and positions depend on the hash)
+import Winter.Drv.FriUtil
 
 namespace Drv.C05
+open Model Model.Fri Drv.Fri
 
-def handle (_toks : List String) : String := "-"
+/-- `true` = the model of the repaired verifier (remainder compared with its commitment) -/
+def commitCheck : Bool := true
+
+def parseLayer {α : Type} (fld : Fld α) (s : String) : Option (Opening α) :=
+  match s.splitOn "/" with
+  | [flag, rows] =>
+    match parseRows fld.parse rows with
+    | some rs => some ⟨flag == "1", rs⟩
+    | none => none
+  | _ => none
+
+def parseLayers {α : Type} (fld : Fld α) (s : String) : Option (List (Opening α)) :=
+  if s == "-" then some [] else (s.splitOn "|").mapM (parseLayer fld)
+
+def vfy {α : Type} (fld : Fld α) (N r logb maxdeg parts ncommit : Nat)
+    (alphas positions evals rem crem layers : String) : String :=
+  match Opts.new? (2 ^ logb) N r, parseList fld.parse alphas, parseList (fun s => s.toNat?) positions,
+      parseList fld.parse evals, parseList fld.parse rem, parseList fld.parse crem, parseLayers fld layers with
+  | some o, some als, some ps, some evs, some rm, some crm, some ls =>
+    let F := fld.ops
+    let commitments : List (Option (List α)) :=
+      if ncommit = 0 then [] else List.replicate (ncommit - 1) none ++ [some crm]
+    let inp : VInput α (Option (List α)) := {
+      maxPolyDegree := maxdeg
+      numPartitions := parts
+      commitments := commitments
+      alphas := als
+      layers := ls
+      remainder := rm
+      positions := ps
+      evaluations := evs }
+    let _ : BEq (Option (List α)) := ⟨fun a b =>
+      match a, b with
+      | some x, some y => beqList F x y
+      | none, none => true
+      | _, _ => false⟩
+    verdictStr (verify F commitCheck some o inp)
+  | _, _, _, _, _, _, _ => "bad-op"
+
+def withFld (name : String) (k : {α : Type} → Fld α → String) : String :=
+  match name with
+  | "f64" => k (baseFld F64.impl)
+  | "f62" => k (baseFld F62.impl)
+  | "f128" => k (baseFld F128.impl)
+  | "q64" => k quadFld
+  | _ => "bad-op"
+
+def handle : List String → String
+  | ["vfy", _tag, f, _hasher, n, r, logb, maxdeg, parts, ncommit, alphas, positions, evals, rem, crem, layers] =>
+    match n.toNat?, r.toNat?, logb.toNat?, maxdeg.toNat?, parts.toNat?, ncommit.toNat? with
+    | some n, some r, some logb, some maxdeg, some parts, some ncommit =>
+      withFld f fun fld => vfy fld n r logb maxdeg parts ncommit alphas positions evals rem crem layers
+    | _, _, _, _, _, _ => "bad-op"
+  | "adv" :: _ => "-"
+  | _ => "bad-op"
 
 end Drv.C05
 
